@@ -7003,7 +7003,7 @@ struct ccBVal_info ccBValInfoTable[] = {
  {FOAM_BVal_CharLower,    CCO_FCall,   0,"fiCharLower",    "fiCHAR_LOWER"},
  {FOAM_BVal_CharUpper,    CCO_FCall,   0,"fiCharUpper",    "fiCHAR_UPPER"},
  {FOAM_BVal_CharOrd,      CCO_Cast,    0,gcFiSInt,         0},
- {FOAM_BVal_CharNum,      CCO_Cast,    0,"char",           0},
+ {FOAM_BVal_CharNum,      CCO_Cast,    0,gcFiChar,         0},
 
  {FOAM_BVal_SFlo0,        CCO_FloatVal,1,"0.0",            0},
  {FOAM_BVal_SFlo1,        CCO_FloatVal,1,"1.0",            0},
